@@ -166,8 +166,21 @@ def run(rep, facts, tier):
     rep.analysed(si)
     ogs = Origins(si, summaries=True)
     t0 = ogs.of_local(0, si.return_blocks()[0], 'term')
-    okf = term_has(t0, lambda x: x[0] == 'call' and x[1].endswith('::contains_key') and has_field(x, 'changes')) and \
-        any(cond[0] == 'call' and cond[1].endswith('::lt') and cond[2][0] == ('param', 2) and cond[2][1] == ('field', 'ack_base', ('param', 1)) for _s, _t, cond, _l in switch_edges(si, fx, ogs))
+
+    def atom(t):
+        if t[0] == 'call' and t[1].endswith('::lt') and t[2][0] == ('param', 2) and t[2][1] == ('field', 'ack_base', ('param', 1)):
+            return 'lt'
+        if t[0] == 'call' and t[1].endswith('::gt') and t[2][1] == ('param', 2) and t[2][0] == ('field', 'ack_base', ('param', 1)):
+            return 'lt'
+        if t[0] == 'call' and t[1].endswith('::contains_key') and has_field(t[2][0], 'changes') and t[2][1] == ('param', 2):
+            return 'contains'
+        return None
+    # `a || b`: a switch on one atom whose true edge yields true, the other atom is the remaining value (either order)
+    sw_atoms = set(atom(cond) for _s, _t, cond, _l in switch_edges(si, fx, ogs)) - {None}
+    alts = t0[1] if t0[0] == 'phi' else (t0,)
+    val_atoms = set(atom(a) for a in alts) - {None}
+    consts = [a for a in alts if a[0] == 'const']
+    okf = (sw_atoms | val_atoms) == {'lt', 'contains'} and len(sw_atoms) == 1 and len(val_atoms) == 1 and all(c == ('const', 'int', 1) for c in consts) and len(consts) >= 1
     rep.check(okf, 'R01.4', 'should_ignore_change/formula', 'seqnum < ack_base || changes.contains_key(seqnum)', 'should_ignore_change is not `sn < ack_base || changes.contains_key(sn)`', si.where())
 
     # ------------------------------------------------------------ R01.5
